@@ -292,6 +292,45 @@ theorem unknown_options_ignored (flags : List (List Char)) (s opt : List Char)
     intro h; simp at hflag; exact hflag h
   simp [contributes, hflag', hpre]
 
+/-- **A key is ours iff it STARTS with `python-gapic-`**: an option of another plugin whose key merely CONTAINS the
+prefix (`legacy-python-gapic-name=hijacked`, `x-python-gapic-namespace=evil.corp`: some non-empty head `w` not
+beginning with `p`, then the prefix, then any suffix — also a suffix this plugin knows) contributes nothing to the
+parsed options, whether it comes after the genuine options or before them. -/
+theorem foreign_key_containing_prefix_ignored (flags : List (List Char)) (s opt w suffix v : List Char) (c : Char)
+    (hkv : keyValue (strip opt) = (c :: w ++ prefixGapic ++ suffix, v)) (hc : c ≠ 'p')
+    (hflag : flags.contains (c :: w ++ prefixGapic ++ suffix) = false) (hcomma : ',' ∉ opt) :
+    parseOpts flags (s ++ ',' :: opt) = parseOpts flags s ∧ parseOpts flags (opt ++ ',' :: s) = parseOpts flags s := by
+  have hpre : prefixGapic.isPrefixOf (keyValue (strip opt)).1 = false := by
+    rw [hkv]; simp [prefixGapic, List.isPrefixOf, hc.symm]
+  have hflag' : flags.contains (keyValue (strip opt)).1 = false := by rw [hkv]; exact hflag
+  refine ⟨unknown_options_ignored flags s opt hflag' hpre hcomma, ?_⟩
+  have hnone : contributes flags opt = [] := by
+    have hm : (keyValue (strip opt)).1 ∉ flags := by
+      intro h; simp at hflag'; exact hflag' h
+    simp [contributes, hm, hpre]
+  unfold parseOpts
+  rw [splitOn_append, List.flatMap_append]
+  have hone : splitOn ',' opt = [opt] := by
+    clear hkv hflag hpre hflag' hnone
+    induction opt with
+    | nil => rfl
+    | cons d ds ih =>
+      have hd : d ≠ ',' := by intro h; apply hcomma; simp [h]
+      have hds : ',' ∉ ds := by intro h; apply hcomma; simp [h]
+      simp [splitOn, ih hds, hd]
+  rw [hone]
+  simp [hnone]
+
+/-- the hypotheses are met by such options, for every known suffix; and the genuine key IS read -/
+example :
+    let flags := Pinned.optFlags.map String.toList
+    (["name", "namespace", "warehouse-package-name", "transport", "templates", "metadata"].all fun sfx =>
+      let opt := ("legacy-python-gapic-" ++ sfx ++ "=hijacked").toList
+      keyValue (strip opt) = ('l' :: "egacy-".toList ++ prefixGapic ++ sfx.toList, "hijacked".toList) &&
+      !flags.contains ('l' :: "egacy-".toList ++ prefixGapic ++ sfx.toList) &&
+      parseOpts flags ("transport=rest,".toList ++ opt) == parseOpts flags "transport=rest".toList) = true ∧
+    parseOpts flags "python-gapic-name=shelf".toList = [("name".toList, "shelf".toList)] := by decide +kernel
+
 /-- known flags and prefixed options ARE read (so the theorem above is not vacuous about the parser) -/
 example : parseOpts [['m','e','t','a','d','a','t','a'], ['t','r','a','n','s','p','o','r','t']]
     "transport=grpc+rest, metadata,zzz=1,foo=a=b,python-gapic-name=x_y".toList
